@@ -109,7 +109,11 @@ Lemma deflabels_labdefs l : forall p, map fst (labdefs l p) = deflabels l.
 Proof. induction l as [|[x|i] r IH]; intros p; cbn [labdefs deflabels map fst]; [reflexivity | now rewrite IH | apply IH]. Qed.
 
 Lemma lname_eqb_eq a b : lname_eqb a b = true <-> a = b.
-Proof. destruct a, b; cbn; split; intro H; try reflexivity; try discriminate. Qed.
+Proof.
+  destruct a, b; cbn; split; intro H; try reflexivity; try discriminate.
+  - apply Nat.eqb_eq in H. now subst.
+  - inversion H. apply Nat.eqb_refl.
+Qed.
 Lemma lname_eqb_refl a : lname_eqb a a = true.
 Proof. now apply lname_eqb_eq. Qed.
 Lemma label_eqb_eq a b : label_eqb a b = true <-> a = b.
@@ -415,6 +419,7 @@ Notation lw := (Machine.lw w).
 Notation sw := (Machine.sw w).
 Notation r0 := (a_r0 R).
 Notation r1 := (a_r1 R).
+Notation r2 := (a_r2 R).
 Notation fp := (a_fp R).
 Notation ra := (regaddr R).
 
@@ -528,15 +533,16 @@ Proof. intros H. cbn [trace run_mem]. rewrite H. now rewrite app_nil_r. Qed.
 
 (* ---------- well-formed frame ---------- *)
 (* the registers: in bounds, pairwise disjoint, below the stack area; fp holds a positive signed
-   address *)
+   address.  r2 is not used by the lowered code of the fragment itself; the runtime library uses it *)
 Record regs_ok (m : mem) : Prop := {
   lo_wf : wf_mem m;
-  lo_r0 : 0 <= r0; lo_r1 : 0 <= r1; lo_fp : 0 <= fp;
+  lo_r0 : 0 <= r0; lo_r1 : 0 <= r1; lo_fp : 0 <= fp; lo_r2 : 0 <= r2;
   lo_i0 : inb m r0 w = true; lo_i1 : inb m r1 w = true; lo_if : inb m fp w = true;
   lo_d01 : r0 + w <= r1 \/ r1 + w <= r0;
   lo_d0f : r0 + w <= fp \/ fp + w <= r0;
   lo_d1f : r1 + w <= fp \/ fp + w <= r1;
-  lo_b0 : r0 + w <= lo; lo_b1 : r1 + w <= lo; lo_bf : fp + w <= lo;
+  lo_b0 : r0 + w <= lo; lo_b1 : r1 + w <= lo; lo_bf : fp + w <= lo; lo_b2 : r2 + w <= lo;
+  lo_d2f : r2 + w <= fp \/ fp + w <= r2;
   lo_F : 0 <= FP m < W / 2 }.
 (* STACK ROOM at frame offset top: the area [lo, fp - top) below the stack top is inside the
    state section and addressable by a signed offset from fp *)
@@ -545,9 +551,10 @@ Record room_ok (top : Z) (m : mem) : Prop := {
   ro_top : 0 <= top;
   ro_half : FP m - lo <= W / 2;
   ro_sz : FP m - top <= msize m }.
-(* [a, a+n) is disjoint from the words r0 and r1 and from the temporaries' area [lo, hi) *)
+(* [a, a+n) is disjoint from the words r0, r1, r2 and from the temporaries' area [lo, hi) *)
 Definition dj (hi a n : Z) : Prop :=
-  (a + n <= r0 \/ r0 + w <= a) /\ (a + n <= r1 \/ r1 + w <= a) /\ (a + n <= lo \/ hi <= a).
+  (a + n <= r0 \/ r0 + w <= a) /\ (a + n <= r1 \/ r1 + w <= a) /\
+  ((a + n <= lo \/ hi <= a) /\ (a + n <= r2 \/ r2 + w <= a)).
 (* a local of n bytes at frame offset off *)
 Definition slot_ok (hi : Z) (m : mem) (off n : Z) : Prop :=
   0 < off <= W / 2 /\ 0 <= FP m - off /\ inb m (FP m - off) n = true /\ dj hi (FP m - off) n.
@@ -573,10 +580,11 @@ Fixpoint vars_ok (m : mem) (e : bexpr) : Prop :=
   | BNot e1 => vars_ok m e1
   | BAnd e1 e2 | BOr e1 e2 => vars_ok m e1 /\ vars_ok m e2
   end.
-(* FRAME CONDITION: m' differs from m at most in the words r0 and r1 and in [lo, hi) *)
+(* FRAME CONDITION: m' differs from m at most in the words r0, r1, r2 and in [lo, hi) *)
 Definition agree (hi : Z) (m m' : mem) : Prop :=
   msize m' = msize m /\ (wf_mem m -> wf_mem m') /\
-  forall x, 0 <= x -> ~ (r0 <= x < r0 + w) -> ~ (r1 <= x < r1 + w) -> ~ (lo <= x < hi) -> getb m' x = getb m x.
+  forall x, 0 <= x -> ~ (r0 <= x < r0 + w) -> ~ (r1 <= x < r1 + w) -> ~ (lo <= x < hi) -> ~ (r2 <= x < r2 + w) ->
+    getb m' x = getb m x.
 
 Hypothesis Hw : 2 <= w.
 Hypothesis HwE : wsize E = w.
@@ -587,14 +595,14 @@ Proof. split; [reflexivity|]. split; [tauto|]. reflexivity. Qed.
 Lemma agree_trans hi a b c : agree hi a b -> agree hi b c -> agree hi a c.
 Proof.
   intros [S1 [F1 G1]] [S2 [F2 G2]]. split; [congruence|]. split; [tauto|].
-  intros x X N0 N1 N2. rewrite G2, G1; auto.
+  intros x X N0 N1 N2 N3. rewrite G2, G1; auto.
 Qed.
 Lemma agree_mono hi hi' m m' : hi <= hi' -> agree hi m m' -> agree hi' m m'.
-Proof. intros L [S [F G]]. split; [exact S|]. split; [exact F|]. intros x X N0 N1 N2. apply G; auto. lia. Qed.
+Proof. intros L [S [F G]]. split; [exact S|]. split; [exact F|]. intros x X N0 N1 N2 N3. apply G; auto. lia. Qed.
 Lemma agree_sw hi m a v : 0 <= a -> a = r0 \/ a = r1 \/ (lo <= a /\ a + w <= hi) -> agree hi m (sw m a v).
 Proof.
   intros Ha Hr. split; [apply msize_sw|]. split; [intros Wf; apply wf_sw; assumption|].
-  intros x X N0 N1 N2. unfold Machine.sw. apply storen_outside; [assumption | assumption|].
+  intros x X N0 N1 N2 N3. unfold Machine.sw. apply storen_outside; [assumption | assumption|].
   rewrite (wn_w w Hw1). destruct Hr as [->|[->|[H1 H2]]]; lia.
 Qed.
 Lemma agree_lw hi m m' a : agree hi m m' -> 0 <= a -> dj hi a w -> lw m' a = lw m a.
@@ -744,6 +752,7 @@ Definition symval (m : mem) (s : sym) : option Z :=
   | SLab _ => None
   | SChar c => Some (wrap c)
   | SRegAddr r => Some (wrap (ra r))
+  | SStd x => Some (wrap (a_lib R + std_off x))
   end.
 
 Lemma pushed_slot_ok top m : regs_ok m -> room_ok top m -> w <= FP m - top - lo ->
@@ -889,8 +898,9 @@ Qed.
 (* ---------- operands: pop_value ---------- *)
 Lemma symval_oval m s v : symval m s = Some v -> oval m (rs s) = Some v.
 Proof.
-  destruct s as [z|r|l|c|r]; cbn [symval res_sym];
-    [intros H; rewrite oval_imm; exact H | | discriminate | intros H; rewrite oval_imm; exact H | intros H; rewrite oval_imm; exact H].
+  destruct s as [z|r|l|c|r|x]; cbn [symval res_sym];
+    [intros H; rewrite oval_imm; exact H | | discriminate | intros H; rewrite oval_imm; exact H | intros H; rewrite oval_imm; exact H
+    | intros H; rewrite oval_imm; exact H].
   unfold Idioms.oval, val; cbn [mm]. auto.
 Qed.
 Lemma lw_pop_other r b m a : 0 <= ra r -> 0 <= a -> (a + w <= ra r \/ ra r + w <= a) ->
@@ -938,7 +948,7 @@ Lemma symval_pop_other r b m s : regs_ok m -> r = R0 \/ r = R1 ->
   match s with SReg r' => (r' = R0 \/ r' = R1) /\ r' <> r | _ => True end ->
   symval (pop_mem r b m) s = symval m s.
 Proof.
-  intros L Hr Hs. destruct s as [z|r'|l|c|r']; cbn [symval]; try reflexivity.
+  intros L Hr Hs. destruct s as [z|r'|l|c|r'|x]; cbn [symval]; try reflexivity.
   rewrite inb_pop. destruct Hs as [Hr' Ne].
   rewrite lw_pop_other; [reflexivity | | |].
   - destruct L, Hr; subst r; cbn [regaddr]; assumption.
@@ -1043,7 +1053,7 @@ Proof.
   assert (S3' : symval m' (sym_of R1 by_) = Some (wval m y)).
   { rewrite Em, symval_pop_other; [rewrite S3, V2'; reflexivity | exact L3 | left; reflexivity |].
     pose proof (sym_of_bub_of R1 top1 y false (or_intror eq_refl)) as Q. fold by_ in Q.
-    destruct (sym_of R1 by_); [exact I | subst; split; [right; reflexivity | discriminate] | destruct Q | exact I | exact I]. }
+    destruct (sym_of R1 by_); [exact I | subst; split; [right; reflexivity | discriminate] | destruct Q | exact I | exact I | exact I]. }
   assert (Ag : agree (FP m - top) m m').
   { eapply agree_trans; [exact A1|]. eapply agree_trans; [apply (agree_mono (FP m1 - top1)); [rewrite F1; lia | exact A2]|].
     eapply agree_trans; [apply (agree_mono lo); [lia | exact A3]|]. rewrite Em. apply (agree_mono lo); [lia | exact A4]. }
@@ -2234,7 +2244,7 @@ Lemma store_offs_app a b : store_offs (a ++ b) = store_offs a ++ store_offs b.
 Proof.
   induction a as [|x r IH]; [reflexivity|]. cbn [app store_offs].
   destruct x as [l|[t| |c a0 b0|d b0 o|d b0 o|op d a0 b0|d a0|v|d v|b0 o v|b0 o v]]; try exact IH.
-  destruct b0 as [z|[]|l|c|r']; try exact IH; destruct o as [z|r0|l|c|r']; try exact IH. cbn [app]. now rewrite IH.
+  destruct b0 as [z|[]|l|c|r'|x0]; try exact IH; destruct o as [z|r0|l|c|r'|x0]; try exact IH. cbn [app]. now rewrite IH.
 Qed.
 Lemma pop_value_stores r b : store_offs (fst (pop_value r b)) = [].
 Proof. destruct b; reflexivity. Qed.
@@ -2335,7 +2345,7 @@ Proof. intros a. unfold getb, ex_zero; cbn [mdata]. rewrite FMapPositive.Positiv
 Definition ex_mem : mem := Machine.sw 2 (Machine.sw 2 (Machine.sw 2 (Machine.sw 2 ex_zero 2 60) 56 5) 54 7) 52 2.
 Lemma wf_ex_mem : wf_mem ex_mem.
 Proof. unfold ex_mem. repeat (apply (wf_sw 2); [|lia]). apply wf_ex_zero. Qed.
-Definition ex_regs : regmap := hidc_regs 2 62.
+Definition ex_regs : regmap := hidc_regs 2 62 200.
 Definition ex_lo : Z := 40.
 Definition ex_env : env := with_top (is_you_env 2 3) 10.
 (* a + 1 < b * c and not (p or c < -c) *)
